@@ -71,6 +71,12 @@ Window(bits, bit, swap) ==
     IN IF swap THEN RevBytes(w) ELSE w
 WindowMask(n, bit, swap) == Window(Ones(n), bit, swap)
 EmplaceValue(st, bits, bit, swap) == Emplace(st, Window(bits, bit, swap), WindowMask(Len(bits), bit, swap))
+\* BIT-MASK (not condensed): only the bits of the mask are written and claimed; a value with other bits set is not representable
+HasMask(dct) == "mask" \in DOMAIN dct
+AndBits(a, b) == [i \in 1..Len(a) |-> IF a[i] = 1 /\ b[i] = 1 THEN 1 ELSE 0]
+MaskBits(dct) == UBits(dct.mask, dct.bits)
+InsideMask(bits, m) == \A i \in 1..Len(bits) : bits[i] = 1 => m[i] = 1
+EmplaceMasked(st, bits, m, bit, swap) == Emplace(st, Window(bits, bit, swap), Window(m, bit, swap))
 \* advance over bits that are described but not written (RESERVED, NRC-CONST)
 Skip(st, bit, n) == LET c == st.cur + ((bit + n + 7) \div 8) IN [Grow(st, c) EXCEPT !.cur = c]
 
@@ -91,13 +97,18 @@ EncAtomic(dct, v, st, bit) ==
            IF dct.base \in {"uint", "int"} THEN
                (IF v.t \notin {"int", "tok"} THEN Err(st)
                 ELSE LET r == IntBits(v, dct.base, dct.enc, dct.bits) IN
-                     IF r.ok THEN EmplaceValue(st, r.bits, bit, ~dct.hilo) ELSE Err(st))
+                     IF ~r.ok THEN Err(st)
+                     ELSE IF ~HasMask(dct) THEN EmplaceValue(st, r.bits, bit, ~dct.hilo)
+                     ELSE IF ~InsideMask(r.bits, MaskBits(dct)) THEN Err(st)
+                     ELSE EmplaceMasked(st, r.bits, MaskBits(dct), bit, ~dct.hilo))
            ELSE IF dct.base \in {"f32", "f64"} THEN
                (IF v.t # "float" \/ 8 * Len(v.v) # dct.bits THEN Err(st)
                 ELSE EmplaceValue(st, BytesBits(v.v), bit, ~dct.hilo))
            ELSE LET raw == RawBytes(dct, v) IN
                 IF BadBytes(raw) \/ 8 * Len(raw) # dct.bits THEN Err(st)
-                ELSE EmplaceValue(st, BytesBits(raw), bit, FALSE)
+                ELSE IF ~HasMask(dct) THEN EmplaceValue(st, BytesBits(raw), bit, FALSE)
+                ELSE IF ~InsideMask(BytesBits(raw), MaskBits(dct)) THEN Err(st)
+                ELSE EmplaceMasked(st, BytesBits(raw), MaskBits(dct), bit, FALSE)
       [] dct.k = "minmax" ->
            LET raw == RawBytes(dct, v) IN
            IF BadBytes(raw) \/ bit # 0 \/ Len(raw) < dct.min \/ (dct.max >= 0 /\ Len(raw) > dct.max) THEN Err(st)
@@ -320,9 +331,10 @@ DecAtomic(dct, ds, bit) ==
            IF dct.bits = 0 THEN R(ds, EmptyOf(dct))
            ELSE LET e == Extract(ds, dct.bits, bit, IsNumeric(dct.base) /\ ~dct.hilo) IN
                 IF e.ds.err THEN R(e.ds, Missing)
-                ELSE IF dct.base \in {"uint", "int"} THEN R(e.ds, BitsInt(e.bits, dct.base, dct.enc))
-                ELSE IF dct.base \in {"f32", "f64"} THEN R(e.ds, [t |-> "float", v |-> BitsBytes(e.bits)])
-                ELSE LET bv == BytesVal(dct, BitsBytes(e.bits)) IN IF bv.ok THEN R(e.ds, bv.v) ELSE R(DErr(e.ds), Missing)
+                ELSE LET vb == IF HasMask(dct) THEN AndBits(e.bits, MaskBits(dct)) ELSE e.bits IN    \* bits outside the mask are ignored
+                IF dct.base \in {"uint", "int"} THEN R(e.ds, BitsInt(vb, dct.base, dct.enc))
+                ELSE IF dct.base \in {"f32", "f64"} THEN R(e.ds, [t |-> "float", v |-> BitsBytes(vb)])
+                ELSE LET bv == BytesVal(dct, BitsBytes(vb)) IN IF bv.ok THEN R(e.ds, bv.v) ELSE R(DErr(e.ds), Missing)
       [] dct.k = "minmax" ->
            LET bs == BitsBytes(ds.pdu)
                n == Len(bs)
